@@ -1,5 +1,6 @@
 """Self-tests of the simulator itself (not property checks)."""
 import sys
+import time
 
 
 def setup():
@@ -196,6 +197,23 @@ def _pool_script(Pool):
             obs['unpicklable_result'] = type(e).__name__
         it = pool.imap(_sq, range(4))
         obs['next_then_rest'] = (next(it), list(it))
+        rs = [pool.apply_async(_sq, (i,)) for i in range(5)]
+        n_polls = 0
+        while not all(r.ready() for r in rs):         # polling caller
+            n_polls += 1
+            if n_polls > 100000:
+                break
+            time.sleep(0.0005)
+        obs['polling_ready'] = (n_polls <= 100000, [r.get() for r in rs])
+        import queue
+        q = queue.Queue()
+        for i in range(5):
+            pool.apply_async(_sq, (i,), callback=lambda r, i=i: q.put((i, r)))
+        got_q = [None] * 5
+        for _ in range(5):                              # results collected through a queue
+            i, r = q.get()
+            got_q[i] = r
+        obs['queue_collect'] = got_q
     try:
         pool.imap(_sq, [1])
         obs['use_after_exit'] = 'none'
@@ -236,6 +254,14 @@ def _exec_script(mod):
         except KeyError as e:
             obs['map_exception'] = e.args
         acc = []
+        fs_ = [ex.submit(_sq, i) for i in range(4)]
+        n_polls = 0
+        while not all(f.done() for f in fs_):          # polling caller
+            n_polls += 1
+            if n_polls > 100000:
+                break
+            time.sleep(0.0005)
+        obs['polling_done'] = (n_polls <= 100000, [f.result() for f in fs_])
         f = ex.submit(_sq, 5)
         f.add_done_callback(lambda fu: acc.append(fu.result()))
         f.result()
